@@ -12,6 +12,11 @@
 extern int ddp_ddpmain(void);
 extern void (*VERIF_CASES[])(void);
 extern int VERIF_NCASES;
+/* Cases that need the globals of imported modules alive run INSIDE the module's top level: the DDP program ends with
+ * "Wenn verif_fall_nr gleich k ist, fall_k." for every k (VERIF_CASES[k] is then a no-op). */
+static long long verif_current_case = -1;
+long long verif_fall_nr(void) { return verif_current_case; }
+void verif_noop(void) {}
 
 static size_t slurp(int fd, char **buf) {
 	size_t cap = 4096, n = 0;
@@ -35,6 +40,7 @@ int main(int argc, char **argv) {
 			dup2(po[1], 1); dup2(pe[1], 2);
 			close(po[0]); close(po[1]); close(pe[0]); close(pe[1]);
 			alarm(10);
+			verif_current_case = k;
 			ddp_init_runtime(argc, argv);
 			int ret = ddp_ddpmain();
 			VERIF_CASES[k]();
